@@ -25,7 +25,7 @@ ASSUMPTIONS = ['ids, durations and timestamps are excluded from the comparison w
 
 KINDS = ['success', 'raises', 'interrupt', 'interrupt_in_body', 'discarded', 'sampled_out', 'forced', 'handler_fault', 'key_fault', 'save_fails', 'kill_switch',
          'replay_ok', 'replay_missing_id', 'replay_missing_key', 'replay_fn_raises', 'replay_fn_interrupted', 'replay_imported',
-         'noop_discard', 'double_discard', 'equal_hash_args', 'forced_discarded']
+         'noop_discard', 'double_discard', 'equal_hash_args', 'forced_discarded', 'nested_play_discards_outer']
 
 
 def hist_program(seed):
@@ -157,6 +157,24 @@ def do_element(ctx, sess, kind, seed, w):
         for st in p2['body']:
             st['args'] = [({'lit': swap(a['lit'])} if 'lit' in a and type(a['lit']) is int else a) for a in st['args']]
         res = fr.execute(p2, {}, recorder=rec, spy=sess.spy, box=sess.box, with_twin=False)
+        return
+    if kind == 'nested_play_discards_outer' and not sess.saved:
+        res = fr.execute(prog, {}, recorder=rec, spy=sess.spy, box=sess.box, with_twin=False)
+        sess.saved.append(([e for e in res.spy_events if e[0] == 'save'][0][2], prog, {}))
+    if kind == 'nested_play_discards_outer':
+        # a recorded operation that has already made output calls replays a stored recording itself (a self-check); the replayed code
+        # discards "the current recording" - which is the enclosing one. Afterwards the operation ends normally.
+        rid, rprog, rfaults = sess.saved[-1]
+
+        def nested(built):
+            rep = Built(rprog, rec, World(1, poison=True), faults={('main', 1): 'discard'})
+            try:
+                rec.play(rid, playback_function_for(rep))
+            except (TapeRecorderException, UserError, InterruptLike, AssertionError):
+                pass
+        p2 = clone(prog)
+        p2['body'] = p2['body'][:3] + [{'op': 'py', 'fn': nested}] + p2['body'][3:]
+        fr.execute(p2, {}, recorder=rec, spy=sess.spy, box=sess.box, with_twin=False)
         return
     # replays
     if not sess.saved:
